@@ -17,7 +17,9 @@
 (*   [s    the line as a string,                                           *)
 (*    ind  "ii" | "si"    which indent it carries,                         *)
 (*    a, e slice s[a..e) of the *whole text* it renders (1-based),         *)
-(*    hy   TRUE iff a penalty hyphen was appended]                         *)
+(*    hy   TRUE iff a penalty hyphen was appended,                         *)
+(*    bp   Cow kind: position of a line borrowed from the caller's buffer, *)
+(*         0 = owned, -1 = borrowed from elsewhere (static "")]            *)
 (***************************************************************************)
 EXTENDS SplitBreak, OptimalFit
 
@@ -28,8 +30,8 @@ Sentinel == [a |-> 1, e |-> 1, b |-> 1, pen |-> 0, w |-> 0]     \* Word::from(""
 \* wrap_single_line fast path condition (wrap.rs:205)
 FastPath(line, o, nlines) ==
   LET indent == IF nlines = 0 THEN o.ii ELSE o.si
-  IN IF HasDev("shortcut_le") THEN ByteLen(line) <= o.width /\ Len(indent) = 0
-     ELSE IF HasDev("shortcut_display_width") THEN DW(line) < o.width /\ Len(indent) = 0
+  IN IF HasDev("shortcut_ignores_indent") THEN ByteLen(line) < o.width
+     ELSE IF HasDev("shortcut_char_count") THEN Len(line) < o.width /\ Len(indent) = 0
      ELSE ByteLen(line) < o.width /\ Len(indent) = 0
 
 \* the two target widths handed to the wrap algorithm for a paragraph that starts when `nlines`
@@ -60,30 +62,34 @@ RenderPara(line, base, o, nlines, ws, arr) ==
          indent == IF first THEN o.ii ELSE o.si
      IN IF hi < lo
         THEN (IF HasDev("pinned_empty_paragraph_no_indent")
-              THEN [s |-> <<>>, ind |-> (IF first THEN "ii" ELSE "si"), a |-> base + 1, e |-> base + 1, hy |-> FALSE, noind |-> TRUE]
-              ELSE [s |-> indent, ind |-> (IF first THEN "ii" ELSE "si"), a |-> base + 1, e |-> base + 1, hy |-> FALSE, noind |-> FALSE])
+              THEN [s |-> <<>>, ind |-> (IF first THEN "ii" ELSE "si"), a |-> base + 1, e |-> base + 1, hy |-> FALSE, bp |-> -1]
+              ELSE [s |-> indent, ind |-> (IF first THEN "ii" ELSE "si"), a |-> base + 1, e |-> base + 1, hy |-> FALSE,
+                    bp |-> (IF Len(indent) = 0 THEN -1 ELSE 0)])
         ELSE [s |-> indent \o SubSeq(line, ws[lo].a, ws[hi].e - 1) \o (IF ws[hi].pen > 0 THEN <<HY>> ELSE <<>>),
               ind |-> (IF first THEN "ii" ELSE "si"),
-              a |-> base + ws[lo].a, e |-> base + ws[hi].e, hy |-> ws[hi].pen > 0, noind |-> FALSE]]
+              a |-> base + ws[lo].a, e |-> base + ws[hi].e, hy |-> ws[hi].pen > 0,
+              bp |-> (IF Len(indent) = 0 /\ ws[hi].pen = 0 THEN base + ws[lo].a ELSE 0)]]
 
 FastLine(line, base, nlines) ==
   LET t == TrimEndSpaces(line)
-  IN << [s |-> t, ind |-> (IF nlines = 0 THEN "ii" ELSE "si"), a |-> base + 1, e |-> base + 1 + Len(t), hy |-> FALSE, noind |-> FALSE] >>
+  IN << [s |-> t, ind |-> (IF nlines = 0 THEN "ii" ELSE "si"), a |-> base + 1, e |-> base + 1 + Len(t), hy |-> FALSE, bp |-> base + 1] >>
 
-\* one paragraph with the first-fit algorithm (deterministic)
-WrapParaFF(line, base, o, opps, nlines) ==
-  IF FastPath(line, o, nlines) THEN FastLine(line, base, nlines)
+\* one paragraph with the first-fit algorithm (deterministic); nofast = TRUE forces the general path
+WrapParaFF(line, base, o, opps, nlines, nofast) ==
+  IF ~nofast /\ FastPath(line, o, nlines) THEN FastLine(line, base, nlines)
   ELSE LET ws == ParaWords(line, o, opps)
        IN RenderPara(line, base, o, nlines, ws, FirstFit(Frags(ws), ParaLineWidths(o, nlines)))
 
-RECURSIVE WrapFFAcc(_, _, _, _, _, _)
-WrapFFAcc(s, ps, o, oppss, k, acc) ==
+RECURSIVE WrapFFAcc(_, _, _, _, _, _, _)
+WrapFFAcc(s, ps, o, oppss, k, acc, nofast) ==
   IF k > Len(ps) THEN acc
   ELSE WrapFFAcc(s, ps, o, oppss, k + 1,
                  acc \o WrapParaFF(SubSeq(s, ps[k][1], ps[k][2]), ps[k][1] - 1, o,
-                                   (IF o.sep = "uax" THEN oppss[k] ELSE {}), Len(acc)))
+                                   (IF o.sep = "uax" THEN oppss[k] ELSE {}), Len(acc), nofast), nofast)
 \* wrap(text, options) with WrapAlgorithm::FirstFit
-WrapFF(s, o, oppss) == WrapFFAcc(s, SplitEndingRanges(s, o.crlf), o, oppss, 1, <<>>)
+WrapFF(s, o, oppss) == WrapFFAcc(s, SplitEndingRanges(s, o.crlf), o, oppss, 1, <<>>, FALSE)
+\* the same through the general path only (what cfg(fuzzing) wrap_single_line_slow_path computes)
+WrapSlowFF(s, o, oppss) == WrapFFAcc(s, SplitEndingRanges(s, o.crlf), o, oppss, 1, <<>>, TRUE)
 
 LineStrings(ls) == [k \in 1..Len(ls) |-> ls[k].s]
 Ending(o) == IF o.crlf THEN <<CR, LF>> ELSE <<LF>>
@@ -91,6 +97,7 @@ Ending(o) == IF o.crlf THEN <<CR, LF>> ELSE <<LF>>
 \* fill shortcut (fill.rs:42)
 FillFast(s, o) == ByteLen(s) < o.width /\ ~Contains(s, LF) /\ Len(o.ii) = 0
 FillFF(s, o, oppss) == IF FillFast(s, o) THEN TrimEndSpaces(s) ELSE Join(LineStrings(WrapFF(s, o, oppss)), Ending(o))
+FillSlowFF(s, o, oppss) == Join(LineStrings(WrapFF(s, o, oppss)), Ending(o))
 
 (* ---------- fill_inplace (fill.rs:120-153) ---------- *)
 \* positions (1-based, in the whole text) at which a ' ' is overwritten with '\n': for every line of
